@@ -1762,9 +1762,18 @@ class Exec:
         add(z3.ForAll([j], z3.Implies(z3.And(j >= 0, j < m),
                                       z3.And(src(j) >= 0, src(j) < n, to_z3(keep(src(j))), inv(src(j)) == j)),
                       patterns=[src(j)]))
+        # alternative trigger: a mention of the i-th source element (when that is an uninterpreted application of
+        # i), so that a kept element met through another name gets its position in the selection
+        pats = [inv(i)]
+        try:
+            ei = s.at(i)
+            if is_z3(ei) and _is_uf_app(ei) and _mentions(ei, i) and _pattern_ok(ei):
+                pats.append(ei)
+        except Exception:
+            pass
         add(z3.ForAll([i], z3.Implies(z3.And(i >= 0, i < n, to_z3(keep(i))),
                                       z3.And(inv(i) >= 0, inv(i) < m, src(inv(i)) == i)),
-                      patterns=[inv(i)]))
+                      patterns=pats))
         j2 = bvar("j")
         add(z3.ForAll([j, j2], z3.Implies(z3.And(j >= 0, j < j2, j2 < m), src(j) < src(j2)),
                       patterns=[z3.MultiPattern(src(j), src(j2))]))
@@ -1928,6 +1937,31 @@ def _has_quantifier(e):
 
 def _is_uf_app(t):
     return z3.is_app(t) and t.decl().kind() == z3.Z3_OP_UNINTERPRETED and t.num_args() >= 1
+
+
+def _mentions(t, v):
+    todo = [t]
+    while todo:
+        x = todo.pop()
+        if x.eq(v):
+            return True
+        if z3.is_app(x):
+            todo.extend(x.children())
+    return False
+
+
+def _pattern_ok(t):
+    """Usable as an e-matching pattern: uninterpreted applications and arithmetic-free arguments only."""
+    todo = [t]
+    while todo:
+        x = todo.pop()
+        if z3.is_quantifier(x):
+            return False
+        if z3.is_app(x):
+            if x.num_args() > 0 and x.decl().kind() != z3.Z3_OP_UNINTERPRETED:
+                return False
+            todo.extend(x.children())
+    return True
 
 
 def intro(g, depth=0):
